@@ -4,7 +4,7 @@ uses them.  Ghost fields are prefixed g_ and exist only in specifications.
 """
 
 from pyvc.spec import declare_class
-from pyvc.values import BOOL, FRAG, INT, REAL, ROW, STR, TDict, TList, TOpt, TRef, TSet, TTuple
+from pyvc.values import BYTES, BOOL, FRAG, INT, REAL, ROW, STR, TDict, TList, TOpt, TRef, TSet, TTuple
 
 declare_class(
     "Scaffold",
@@ -87,5 +87,5 @@ declare_class(
 declare_class("BinOut", fields={"g_col": INT, "g_total": INT, "g_L": INT})
 declare_class(
     "FastaStream",
-    fields={"out": TRef("BinOut"), "index": TRef("FastaIndex"), "line_length": INT, "gap_character": TTuple([INT, INT, INT])},
+    fields={"out": TRef("BinOut"), "index": TRef("FastaIndex"), "line_length": INT, "gap_character": BYTES},
 )
